@@ -48,6 +48,10 @@ func weightsFor(profile string) map[string]int {
 		base["oracle_round"] = 12
 		base["oracle_claim"] = 10
 		base["stake"] = 4
+	case "C15":
+		base["export_import"] = 6
+		base["oracle_round"] = 3
+		base["set_keys"] = 3
 	case "C16":
 		base["confirm_fuzz"] = 16
 		base["sign_all"] = 10
@@ -344,6 +348,8 @@ func (g *Gen) Step() {
 			in.V = 100 + g.R.Intn(2)
 		}
 		g.emit(in)
+	case "export_import":
+		g.emit(Intent{T: "export_import"})
 	case "adv_event":
 		g.advEvent()
 	case "size_burst":
